@@ -1268,7 +1268,10 @@ class Ranges:
         for l in range(1, b.argc + 1):
             nm = b.names.get(l)
             if nm and nm in self.params:
-                st.iv["%s'%d" % (nm, l)] = self.params[nm]
+                if isinstance(self.params[nm], str):
+                    st.opt["%s'%d" % (nm, l)] = self.params[nm]     # an enum parameter assumed to hold this variant
+                else:
+                    st.iv["%s'%d" % (nm, l)] = self.params[nm]
         return st
 
     def run(self):
